@@ -1,0 +1,66 @@
+//go:build verif
+
+// Contracts for the verification machinery in /verif (govc). Comment-only:
+// this file adds no code to the package. See /verif/DESIGN.md.
+
+package mux
+
+//@ func ReadChunkHeader
+//@   property C05 C14
+//
+//@ func ReadChunk
+//@   property C05 C14
+//
+//@ func NewDemuxer
+//@   property C05
+//
+//@ func (d *Demuxer) parse
+//@   property C05 C17
+//@   requires d != nil
+//
+//@ func (d *Demuxer) parseSimpleVP8
+//@   property C05
+//@   requires d != nil
+//
+//@ func (d *Demuxer) parseSimpleVP8L
+//@   property C05
+//@   requires d != nil
+//
+//@ func (d *Demuxer) parseExtended
+//@   property C05
+//@   requires d != nil
+//@   loop 0: invariant 0 <= pos && pos <= len(payload)
+//@   loop 0: decreases len(payload) - pos
+//
+//@ func (d *Demuxer) parseANIM
+//@   property C05
+//@   requires d != nil
+//
+//@ func (d *Demuxer) parseANMF
+//@   property C05
+//@   requires d != nil
+//@   loop 0: invariant 0 <= pos && pos <= len(framePayload)
+//@   loop 0: decreases len(framePayload) - pos
+//
+//@ func (d *Demuxer) parseSingleExtendedFrame
+//@   property C05
+//@   requires d != nil
+//@   loop 0: invariant 0 <= pos && pos <= len(payload)
+//@   loop 0: decreases len(payload) - pos
+//
+//@ func parseVP8Dimensions
+//@   property C05 C16
+//
+//@ func parseVP8LDimensions
+//@   property C05 C16
+//
+//@ func frameDataHasAlpha
+//@   property C05
+//
+//@ func (d *Demuxer) Frame
+//@   property C05
+//@   requires d != nil
+//
+//@ func (d *Demuxer) GetChunk
+//@   property C05
+//@   requires d != nil
